@@ -30,6 +30,7 @@ RULE = ('correspondence (extracted model vs real library): conv A B = storage of
         'exact integer rounding (no reciprocal): black/white, every channel nearest (rgb->rgb, gray->gray, gray->rgb), rgb->gray = documented '
         '8-bit luma of the 8-bit scaled channels scaled to the target + monotone in every channel, widen-then-narrow identity, '
         'gray/rgb -> binary upper half, binary -> black/white; for every pair over ALL source values (2^24 for the 24-bit types). '
+        'web T = storage of all 141 CSS constants of T (p_web: against the CSS values scaled to nearest). '
         'Non-trivial = result line not empty; distinct = distinct case lines.')
 EXHAUSTIVE = {'quick': False, 'thorough': False}
 ASSUMPTIONS = ['a colour value of type t is an integer 0 <= c < 2^(used bits of t) (C12 shows every constructor yields one)']
@@ -42,6 +43,8 @@ PARTIAL = []
 def cases(tier, rng):
     types, _ = colorgen.load()
     info = {t[0]: t for t in types}
+    for a in info:
+        yield J('web', a)       # all CSS constants of the type (types without WebColors answer NO-WEB-COLORS on both sides)
     per_pair = 2 ** 13 if tier == 'quick' else 2 ** 16
     for a in info:
         _, kind, sbits, bpp = info[a]
@@ -68,6 +71,8 @@ def cases(tier, rng):
 def search(tier, rng):
     types, _ = colorgen.load()
     info = {t[0]: t for t in types}
+    for a in colorgen.web_types():
+        yield J('p_web', a)
     for a in info:
         _, kind, sbits, bpp = info[a]
         for b in info:
